@@ -15,6 +15,7 @@ func init() {
 		Harnesses: []harness{
 			{Name: "gsxC14Plumbing", Pkg: "cmd/go-critic", Solver: "z3", Quick: map[string]int{}, MustReach: []string{"constructed"}},
 			{Name: "gsxC14Plumbing", Pkg: "cmd/gocritic", Solver: "z3", Quick: map[string]int{}, MustReach: []string{"constructed"}},
+			{Name: "gsxC14AnalyzerParam", Pkg: "checkers/analyzer", Solver: "z3", Quick: map[string]int{"paths": 400, "wall_s": 60}, NoValidate: true, ReplayFn: replayAnalyzerParam, MustReach: []string{"second pass"}},
 			{Name: "gsxC14SizeOf", Pkg: "linter", Quick: map[string]int{"K": 2, "strlen": 6, "paths": 6000, "wall_s": 60}, NoValidate: true, Tolerant: true, ReplayFn: replaySizeOf, MustReach: []string{"asked twice", "sized"}},
 			{Name: "gsxC14Fields", Pkg: "checkers", Solver: "z3", Quick: map[string]int{"K": 1}, Replay: "none", MustReach: []string{"fields"}},
 			{Name: "gsxC14Monotone_hugeParam", Pkg: "checkers", Quick: c14q, Thorough: c14t, NoValidate: true, Tolerant: true, ReplayFn: replayThreshold("hugeParam", "sizeThreshold"), MustReach: []string{"strict warns"}},
